@@ -97,7 +97,6 @@ def apply_transfer_functions(obj, dx, tfs, fx=None, fy=None, ft=None, fr=None, s
 
     if shift:
         return fft.fftshift(fft.ifft2(fft.ifftshift(O))).real
-    # no if shift on this side, [i]fft will always place the origin at [0,0]
-    # real inside shift - 2x faster to shift real than to shift complex
-    i = fft.fftshift(fft.ifft2(O).real)
-    return i
+    # unshifted convention: the transfer functions have their origin at [0,0]
+    # the object is not moved, so an all-ones transfer function is the identity
+    return fft.ifft2(O).real
